@@ -11,10 +11,13 @@ for sid in ids:
     env = dict(os.environ, MAXL='40')
     out = subprocess.run(['/verif/tools/try_seed_iso.sh', d] + props, capture_output=True, text=True, env=env).stdout
     viol = re.findall(r'^VIOLATION property=(\S+) replay=\S+ obligation=(\S+)( no-failing-input-found)?', out, re.M)
+    bnd = re.findall(r'^VIOLATION property=(\S+) replay=\S+ bounded="([^"]+)" disagreements=(\d+)', out, re.M)
     eng = re.findall(r'^ENGINE-ERROR.*', out, re.M)
     if 'patch does not apply' in out:
         status = 'patch no longer applies to the repaired tree (the code it changed was rewritten by a fix: commit)'
         m['status_now'] = status
+    elif bnd and not viol:
+        m['status_now'] = 'detected by the bounded stand-in: ' + ', '.join(f'{n} ({k} disagreements, failing inputs from the run on the real code in the replay file)' for _, n, k in bnd) + f' (properties run: {" ".join(props)})'
     elif viol:
         obs = sorted({f"{o}" for _, o, _ in viol})
         rep = 'counterexample replayed on the real code' if any(not n for _, _, n in viol) else 'no-failing-input-found'
